@@ -2,7 +2,6 @@
 //! real code in rayon pools of 1/2/8/16 threads vs. naive dense oracle (harness) vs. Lean code model.
 use std::collections::BTreeSet;
 
-use num_traits::{One, Zero};
 use rayon::ThreadPool;
 use yui::{GaussInt, Ratio, Ring, RingOps, UnionFind, FF};
 use yui_matrix::sparse::decomp::dir_sum_decomp;
@@ -352,12 +351,14 @@ where for<'x> &'x R: RingOps<R> {
     let zy = if r.chance(1, 3) { 1 + r.below(2) as u8 } else { 0 };
     let mut yspec: Spec<R> = if planted && valid {
         // plant a small solution so that every intermediate value stays small
-        let xs: Spec<R> = rand_sparse(r, ym, yn, *r.pick(&[20u64, 50, 90]), 0);
+        let xdens = *r.pick(&[20u64, 50, 90]);
+        let xs: Spec<R> = rand_sparse(r, ym, yn, xdens, 0);
         let xd = Dn::from_sp(&build(&xs));
         let yd = if kind == Kind::Left { xd.mul(&ad) } else { ad.mul(&xd) };
         spec_of_dense(r, &yd, zy)
     } else {
-        rand_sparse(r, ym, yn, *r.pick(&[15u64, 40, 80]), zy)
+        let ydens = *r.pick(&[15u64, 40, 80]);
+        rand_sparse(r, ym, yn, ydens, zy)
     };
     if kind == Kind::Inv { yspec = Spec { m: 0, n: 0, ent: vec![], zeros: vec![], method: 0 }; }
     if valid && kind != Kind::Inv && r.chance(1, 25) { // shape mismatch: rejected by assert_eq!
@@ -444,7 +445,8 @@ where for<'x> &'x R: RingOps<R> {
     let lim = mm.min(nn);
     let r = match rg.below(4) { 0 => 0, 1 => lim, _ => rg.below(lim as u64 + 1) as usize };
     let zmode = if rg.chance(2, 5) { 1 + rg.below(2) as u8 } else { 0 };
-    let mut aspec: Spec<R> = rand_triang(rg, r, upper, *rg.pick(&[20u64, 50, 100]), 0);
+    let adens = *rg.pick(&[20u64, 50, 100]);
+    let mut aspec: Spec<R> = rand_triang(rg, r, upper, adens, 0);
     let mut tag = "none";
     if rg.chance(1, 8) { tag = damage(rg, &mut aspec, upper); if tag == "nonsquare" { aspec.m = r; aspec.n = r; tag = "none"; } }
     let a = Dn::from_sp(&build(&aspec));
@@ -557,7 +559,8 @@ where for<'x> &'x R: RingOps<R> {
         // plain random sparse matrix
         let cap = if big { 14 } else { 8 };
         let (m, n) = (r.below(cap + 1) as usize, r.below(cap + 1) as usize);
-        let spec: Spec<R> = rand_sparse(r, m, n, *r.pick(&[5u64, 12, 20, 35]), zmode);
+        let dens = *r.pick(&[5u64, 12, 20, 35]);
+        let spec: Spec<R> = rand_sparse(r, m, n, dens, zmode);
         decomp_case(s, pools, &build(&spec), "random");
         return;
     }
@@ -654,7 +657,7 @@ fn uf_case(s: &mut Sink, r: &mut Rng, nmax: usize, len: usize) {
                         let mut exp: Vec<Vec<usize>> = vec![];
                         for l in 0..n { let c: Vec<usize> = (0..n).filter(|&i| lab[i] == l).collect(); if !c.is_empty() { exp.push(c); } }
                         if g != exp { ok = false; detail = format!("group {:?} expected {:?}", g, exp); }
-                        out.push(g.iter().map(|c| nat_list(c)).collect::<Vec<_>>().join(";"));
+                        out.push(if g.is_empty() { "-".into() } else { g.iter().map(|c| nat_list(c)).collect::<Vec<_>>().join(";") });
                     }
                 }
             }
